@@ -131,6 +131,40 @@ def _hdr2_pairs(raw):
     return pairs
 
 
+def _typed1(raw):
+    if not raw.ok:
+        return []
+    n = len(raw.data)
+    special = set(elfraw.SHT[k] for k in ('DYNAMIC', 'NOTE', 'HASH', 'GNU_HASH', 'GNU_verdef', 'GNU_verneed', 'GNU_versym', 'SYMTAB',
+                                            'DYNSYM', 'STRTAB'))
+    out = []
+
+    def vals(w, old):
+        top = 8 * w
+        m = (1 << top) - 1
+        return sorted(set(v & m for v in (0, 1, m, n, old << 16, old + 1)) - {old})
+    seen_types = {}
+    for s in raw.sections:
+        if s['sh_type'] not in special:
+            continue
+        # at most three headers per section type and image
+        seen_types[s['sh_type']] = seen_types.get(s['sh_type'], 0) + 1
+        if seen_types[s['sh_type']] > 3:
+            continue
+        for nm, o, w in raw.shdr_fields:
+            if nm in ('sh_offset', 'sh_size', 'sh_entsize', 'sh_link', 'sh_info'):
+                for v in vals(w, s[nm]):
+                    out.append((s['_off'] + o, w, v))
+    for p in raw.segments:
+        if p['p_type'] not in (elfraw.PT['DYNAMIC'], elfraw.PT['NOTE'], 1, 3):
+            continue
+        for nm, o, w in raw.phdr_fields:
+            if nm in ('p_offset', 'p_filesz', 'p_vaddr', 'p_memsz'):
+                for v in vals(w, p[nm]):
+                    out.append((p['_off'] + o, w, v))
+    return out
+
+
 def _synth_bytes(name):
     return elfbuild.build_dynamic(substream(int(name.split(':', 1)[1]), 'image'))[0]
 
@@ -171,6 +205,15 @@ def prepare(prop, tier, seed, only=None):
         pairs = _hdr2_pairs(raws[f])
         plan.append(('hdr2', f, total, total + len(pairs), pairs))
         total += len(pairs)
+    # enumerated single-field corruptions of the headers the battery acts on: every section header whose type selects a
+    # specialised reader (dynamic, symbol tables, hash tables, notes, version sections, string tables) and every
+    # PT_DYNAMIC / PT_NOTE / PT_INTERP / PT_LOAD program header, fields that size or place the table, boundary values
+    # (one corrupted field is the commonest damage; sampling hit a given (section type, field, value) only by chance)
+    for f in files:
+        singles = _typed1(raws[f])
+        if singles:
+            plan.append(('typed1', f, total, total + len(singles), singles))
+            total += len(singles)
     plan.append(('field', None, total, total + n_field, None))
     total += n_field
     plan.append(('bytes', None, total, total + n_bytes, None))
@@ -181,6 +224,17 @@ def prepare(prop, tier, seed, only=None):
 
 def n_runs(prop, tier):
     return _STATE['total']
+
+
+def run_order(prop, tier):
+    """The structure-aware sampled corruptions and the random byte strings first (few, and they reach the deepest code),
+    then the enumerated header-field pairs, then the byte-substitution and truncation sweeps: a wall-clock budget that
+    runs out on a loaded machine cuts the tail of the longest sweep, nothing else."""
+    rank = {'typed1': 0, 'field': 1, 'bytes': 2, 'hdr2': 3, 'sub': 4, 'trunc': 5}
+    out = []
+    for kind, f, lo, hi, extra in sorted(_STATE['plan'], key=lambda c: (rank[c[0]], c[2])):
+        out.extend(range(lo, hi))
+    return out
 
 
 def _targets_for(f):
@@ -208,6 +262,10 @@ def gen_spec(prop, tier, seed, index):
         old = data[pos]
         v = [0x00, 0xff, (old + 1) & 0xff, old ^ 0x80][vi]
         return dict(engine=ENGINE, kind='sub', image=f, eof=None, subs={str(pos): v})
+    if kind == 'typed1':
+        o, w, v = extra[k]
+        raw = _STATE['raws'][f]
+        return dict(engine=ENGINE, kind='typed1', image=f, eof=None, subs={str(o + i): b for i, b in enumerate(v.to_bytes(w, raw.bo))})
     if kind == 'hdr2':
         o1, w1, v1, o2, w2, v2 = extra[k]
         raw = _STATE['raws'][f]
@@ -581,7 +639,9 @@ def describe(prop):
         rule=('run = (seed image, stored-byte fault) -> ELFFile(stream) -> fixed enumeration battery under budgets on the I/O clock. '
               'Enumerated: trunc(L) for every L in [0, min(len,4096)] and b-1,b,b+1 at every structural boundary; sub(pos,v) for pos<64, '
               'v in {0x00,0xff,old+1,old^0x80} (quick: a seeded third of the seed images, thorough: all); hdr2: every pair (Ehdr field, value) x '
-              '(Ehdr / Shdr[0] / Shdr[e_shstrndx] field, value) over 8 boundary values on 3 (quick) / 10 (thorough) structurally different seeds. Sampled: 1-4 simultaneous '
+              '(Ehdr / Shdr[0] / Shdr[e_shstrndx] field, value) over 8 boundary values on 3 (quick) / 10 (thorough) structurally different seeds; typed1: on every seed, every '
+              'single corruption (sh_offset, sh_size, sh_entsize, sh_link, sh_info) x (0, 1, all-ones, file size, old<<16, old+1) of the section headers whose type selects a specialised '
+              'reader and (p_offset, p_filesz, p_vaddr, p_memsz) of the PT_LOAD / PT_DYNAMIC / PT_NOTE / PT_INTERP program headers. Sampled: 1-4 simultaneous '
               'structure-aware field corruptions (Ehdr/Shdr/Phdr fields, words inside dynamic/note/hash/version/symbol extents; values: boundaries, '
               'file size, old+-1, top bit, extended-numbering escapes, old scaled by 2^8..2^20 (stays a multiple of the entry size)) and random byte strings. '
               'Allocation oracle: every run is screened by the growth of its process (peak virtual / resident size, /proc) and decided by the tracemalloc peak '
